@@ -21,9 +21,11 @@ const (
 	TSLong     = 9
 	TFloat     = 11
 	TDouble    = 12
+	TSByte     = 6  // a type the library does not decode (TIFF 6.0: readers skip fields of unknown type)
+	TIFD       = 13 // likewise
 )
 
-var typeSize = map[uint16]int{1: 1, 2: 1, 3: 2, 4: 4, 5: 8, 7: 1, 8: 2, 9: 4, 10: 8, 11: 4, 12: 8}
+var typeSize = map[uint16]int{1: 1, 2: 1, 3: 2, 4: 4, 5: 8, 6: 1, 7: 1, 8: 2, 9: 4, 10: 8, 11: 4, 12: 8, 13: 4, 0: 1, 14: 1}
 
 // Directories
 const (
@@ -66,7 +68,7 @@ func (v Val) encode(bo binary.ByteOrder) []byte {
 		if v.NoNUL {
 			out = []byte(v.Str)
 		}
-	case TByte, TUndefined:
+	case TByte, TUndefined, TSByte, 0, 14:
 		for _, i := range v.Ints {
 			out = append(out, byte(i))
 		}
@@ -76,7 +78,7 @@ func (v Val) encode(bo binary.ByteOrder) []byte {
 			bo.PutUint16(t[:], uint16(i))
 			out = append(out, t[:]...)
 		}
-	case TLong, TSLong, TFloat:
+	case TLong, TSLong, TFloat, TIFD:
 		for _, i := range v.Ints {
 			var t [4]byte
 			bo.PutUint32(t[:], i)
@@ -290,6 +292,15 @@ func ChooseShape(x Chooser, rec *Rec) string {
 	}
 	e := &rec.Entries[c-1]
 	k := x.All("shape.kind", NShapes)
+	// the shape is applied to every value of the field's menu, not only to the record's default
+	for fi := range Fields {
+		if Fields[fi].Dir == e.Dir && Fields[fi].Tag == e.Tag && !e.Foreign {
+			if vi := x.All("shape.value", len(Fields[fi].Menu)+1); vi > 0 {
+				e.V = Fields[fi].Menu[vi-1]
+			}
+			break
+		}
+	}
 	v := e.V
 	isInt := v.Type == TByte || v.Type == TShort || v.Type == TLong
 	maxv := uint32(0)
@@ -417,7 +428,7 @@ var padMenu = []int{0, 1, 2, 13}
 const (
 	nOrders   = 4
 	nValOrder = 3
-	nForeign  = 6
+	nForeign  = 10
 )
 
 // ChooseLayout picks a layout (all choices costed, default = canonical).
@@ -469,6 +480,20 @@ func foreignEntries(dir int, mode int, order int) []Entry {
 		case DirGPS:
 			out = append(out, Entry{Dir: dir, Tag: 0x0132, Name: "foreign-datetime-id-in-gps", V: S("2001:01:01 01:01:01"), Foreign: true})
 		}
+	case 6, 7, 8, 9: // a field of a type the library does not decode as the last entry of every directory, embedded and out of line
+		typ := []uint16{TSByte, TIFD, 0, 14}[mode-6]
+		n := 3
+		if mode%2 == 1 {
+			n = 9
+		}
+		ints := make([]uint32, n)
+		for i := range ints {
+			ints[i] = uint32(0x80 + i)
+		}
+		if typ == TIFD {
+			ints = ints[:1+n/9]
+		}
+		out = append(out, Entry{Dir: dir, Tag: 0xfff0, Name: fmt.Sprintf("foreign-type-%d-last", typ), V: Val{Type: typ, Ints: ints}, Foreign: true})
 	case 5: // near the documented capacity: every directory's own out-of-line values plus these stay below 84 pending
 		// at any time.  Where each directory is followed by its values (orders 0, 2) that is a per-directory budget,
 		// where values are postponed (orders 1, 3) it is a budget for the whole block.
@@ -759,7 +784,7 @@ func ReadBack(b []byte, rootDir int) ([]Entry, error) {
 			case TASCII:
 				v.Str = strings.TrimSuffix(string(data), "\x00")
 				v.NoNUL = len(data) == 0 || data[len(data)-1] != 0
-			case TByte, TUndefined:
+			case TByte, TUndefined, TSByte, 0, 14:
 				for _, c := range data {
 					v.Ints = append(v.Ints, uint32(c))
 				}
@@ -767,7 +792,7 @@ func ReadBack(b []byte, rootDir int) ([]Entry, error) {
 				for k := 0; k < int(cnt); k++ {
 					v.Ints = append(v.Ints, uint32(bo.Uint16(data[2*k:])))
 				}
-			case TLong, TSLong, TFloat:
+			case TLong, TSLong, TFloat, TIFD:
 				for k := 0; k < int(cnt); k++ {
 					v.Ints = append(v.Ints, bo.Uint32(data[4*k:]))
 				}
